@@ -73,8 +73,14 @@ def script_program(rng, ncos=None, wrap_prob=0.25):
                                               p.ret([p.call(p.id("deep"), [p.bin("-", p.id("d"), p.num(1))])])]))
                 ops.append(p.localfunction("deep", deep))
                 ops.append(p.emit([p.str(tag + "-deep"), p.call(p.id("deep"), [p.num(rng.randint(0, 3))])]))
-            elif c < 0.75:
+            elif c < 0.72:
                 ops.append(p.emit([p.str(tag + "-pc"), p.call(p.id("pcall"), [p.id("error"), p.str("inner")])]))
+            elif c < 0.75:
+                # a yield below pcall cannot suspend the host function: an error at the yield, caught by that pcall; the
+                # coroutine goes on and its later yields work
+                inner = p.func([], p.block([p.local(["keep"], [p.str("kept")]), p.assign([p.id("kfn")], [p.func([], p.block([p.ret([p.id("keep")])]))]),
+                                            p.local(["r"], [p.call(_co(p, "yield"), vals())]), p.ret([p.str("not-reached"), p.id("r")])]))
+                ops.append(p.emit([p.str(tag + "-ypc"), p.call(p.id("pcall"), [inner]), p.call(p.id("kfn"), [])]))
             elif c < 0.83:
                 x = "x%d" % j
                 ops.append(p.fornum("i", p.num(1), p.num(2), 0, p.block([
